@@ -17,6 +17,10 @@ The reference is `Spec.Evm.step` / `Spec.Evm.exec`. halmos does not model the 10
 it (`stepL`): a state with more than 1024 stack items ends in an end state tagged `stackLimit`, about which nothing is
 claimed (the code would go on).
 
+Message calls (`sound_calls`, for the frame-stack machine Model.SevmCalls `runC`): CALL / CALLCODE with the literal
+value 0, DELEGATECALL, STATICCALL to literal targets whose code is known (or absent), nested to any depth, against
+`Spec.Evm.exec` with its nested calls; the storage maps of *all* modelled accounts describe the final world (`WRelM`).
+
 Known finding kept out of the statement by the tag: the end state `jumpi` produces when a JUMPI with a *symbolic*
 condition has an invalid destination (`Tag.jumpiInvalidSym`) claims the whole input set although the EVM falls through
 when the condition is false; the theorems speak about `Tag.normal` end states (see `tagged_end_unsound_witness`).
